@@ -68,3 +68,10 @@ def build_trie(phrases, ids):
     for p, i in zip(phrases, ids):
         t.insert(list(p), i)
     return t
+
+
+def build_string_matcher(phrases):
+    from recognizers_text.matcher.string_matcher import StringMatcher
+    m = StringMatcher()
+    m.init(list(phrases))
+    return m
